@@ -253,6 +253,16 @@ def remote_rebasing():
                 for x in getattr(projB, lst):
                     if getattr(x, "parent", None) is None or kind != "proc" or x.parent.obj == "module":
                         got.setdefault((kind, x.name), x.get_url())
+            # what the templates print for an imported entity: str(entity) is an anchor on that URL, for the members of an imported type as well
+            for t in projB.extTypes:
+                for x in [t] + list(getattr(t, "variables", [])) + list(getattr(t, "boundprocs", [])):
+                    try:
+                        text = str(x)
+                    except Exception as e:
+                        bad.append(f"external URL {base!r}: printing the imported {type(x).__name__} '{x.name}' raises {type(e).__name__}: {e}")
+                        continue
+                    if f"href='{x.get_url()}'" not in text:
+                        bad.append(f"external URL {base!r}: the imported {type(x).__name__} '{x.name}' is printed as {text!r}, without a link to {x.get_url()}")
             for key, rel in expected.items():
                 if got.get(key) != want_base + rel:
                     bad.append(f"external URL {base!r}: {key[0]} {key[1]} is linked to {got.get(key)!r}, A documents it at {want_base + rel!r}")
@@ -285,7 +295,9 @@ def external_entities_in_declarations():
                     if not sbst.startswith("ok"):
                         bad.append(f"sort: {sort}: building B against A failed: {sbst[:200]}")
                         continue
-                    b2, k = check_b_links(os.path.join(pb, "doc"), os.path.join(pa, "doc"), {"a_iface": "interface/a_iface.html", "a_base": "type/a_base.html"}, {"b_abs", "b_child", "more"})
+                    b2, k = check_b_links(os.path.join(pb, "doc"), os.path.join(pa, "doc"), {"a_iface": "interface/a_iface.html", "a_base": "type/a_base.html",
+                                                                                                     "init": "type/a_base.html#boundprocedure-init", "show": "type/a_base.html#boundprocedure-show"},
+                                          {"b_abs", "b_child", "more"})
                     bad += [f"sort: {sort}: {x}" for x in b2]
                     n += k
         finally:
